@@ -1,10 +1,272 @@
-/- C05 — property theorems (work in progress: filled below). -/
-import SkNet.Model.Clustering
-import SkNet.Spec.Clustering
+/-
+C05 — Every clustering is a well-formed partition with consistent secondary outputs.
+
+The theorems are about the model `SkNet/Model/Clustering.lean` (tied to the code on every run by
+`tools/harness/c05.py`) and the specification `SkNet/Spec/Clustering.lean`.  They hold for every size,
+every label vector the kernels may return, every sorting permutation `np.argsort` may return, every
+shuffling permutation and every non-negative weighted input.  Proof details live in `SkNet/Lemmas/Clustering*`.
+
+Parameters (outside this property, see DESIGN 5/C05): the Louvain / Leiden kernels (C06), the propagation
+sweeps (C13), PageRank and the random choices of KCenters (C04).  Their contracts are stated next to the
+theorems that use them (`KernelLen`, `LeidenContract`, `ChoiceOK`, `IsArgsort`) with an instance each.
+-/
+import SkNet.Lemmas.ClusteringLeiden
+import SkNet.Lemmas.ClusteringSecondary
+import SkNet.Lemmas.ClusteringKCenters
 
 namespace SkNet.C05
 open SkNet SkNet.Clustering
 
-theorem identity_rows_length (n : Nat) : (identity n).rows.length = n := by simp [identity]
+/-! ## 1. `reindex_labels` — relabelling by decreasing size -/
+
+/-- ★ `reindex_labels` keeps the partition: two nodes share a new label iff they shared a label.
+    For *any* permutation `argsort` may return that sorts the negated counts (ties in any order). -/
+theorem reindex_same_partition (argsort : List Int → List Nat) (labels : List Int)
+    (h : IsArgsort (sizeKey labels) (argsort (sizeKey labels))) :
+    SamePartition labels (reindexLabels argsort labels) :=
+  reindex_samePartition h
+
+/-- ★ the new labels are exactly `0..k-1`, `k` the number of distinct input labels -/
+theorem reindex_contiguous (argsort : List Int → List Nat) (labels : List Int)
+    (h : IsArgsort (sizeKey labels) (argsort (sizeKey labels))) :
+    Contiguous (reindexLabels argsort labels) (unique labels).length :=
+  reindex_contiguous' h
+
+/-- ★ cluster sizes are non-increasing in the new label -/
+theorem reindex_sizes_noninc (argsort : List Int → List Nat) (labels : List Int)
+    (h : IsArgsort (sizeKey labels) (argsort (sizeKey labels))) :
+    SizesNonInc (reindexLabels argsort labels) (unique labels).length :=
+  reindex_sizes h
+
+/-- ★ the three together, in the form of the property: `reindex_labels` returns a valid sorted clustering -/
+theorem reindex_valid (argsort : List Int → List Nat) (labels : List Int)
+    (h : IsArgsort (sizeKey labels) (argsort (sizeKey labels))) :
+    ValidClustering labels.length (reindexLabels argsort labels) true :=
+  validClustering_of_validK reindex_length (reindex_validK h)
+
+/-- the contract on `argsort` is satisfiable: the stable insertion argsort of the model meets it for every key -/
+theorem argsort_contract_inhabited (key : List Int) : IsArgsort key (argsortStable key) :=
+  argsortStable_isArgsort key
+
+/-- hence, without hypotheses, for the concrete argsort used by the run lines -/
+theorem reindex_stable_valid (labels : List Int) :
+    ValidClustering labels.length (reindexLabels argsortStable labels) true ∧
+    SamePartition labels (reindexLabels argsortStable labels) :=
+  ⟨reindex_valid _ _ (argsortStable_isArgsort _), reindex_same_partition _ _ (argsortStable_isArgsort _)⟩
+
+-- non-vacuity: a label vector with gaps, a negative label and a tie between sizes
+example : reindexLabels argsortStable [7, -2, 7, 3, 3, 7, 9] = [0, 2, 0, 1, 1, 0, 3] := by decide
+instance (key : List Int) (p : List Nat) : Decidable (IsArgsort key p) := by unfold IsArgsort; infer_instance
+example : IsArgsort (sizeKey [7, -2, 7, 3, 3, 7, 9]) [2, 1, 0, 3] ∧ IsArgsort (sizeKey [7, -2, 7, 3, 3, 7, 9]) [2, 1, 3, 0] := by
+  decide
+
+/-! ## 2. the un-shuffle of `_post_processing` -/
+
+/-- ★ after `reverse[index] = arange(n); labels = labels[reverse]`, original node `index[j]` carries the label
+    computed for its shuffled position `j` (the shuffled graph is `adjacency[index][:, index]`) -/
+theorem unshuffle_correct {labels index out : List Nat} (hp : index.Perm (List.range labels.length))
+    (h : unshuffle labels index = .ok out) {j : Nat} (hj : j < labels.length) :
+    out[index.getD j 0]? = labels[j]? :=
+  unshuffle_getElem? hp h hj
+
+/-- ★ the un-shuffle never raises on a permutation and only permutes the label vector: contiguity of the labels
+    and the order of the sizes are preserved -/
+theorem unshuffle_preserves_valid {labels index : List Nat} {n : Nat} {sorted : Bool}
+    (hp : index.Perm (List.range labels.length)) (hv : ValidClustering n labels sorted) :
+    ∃ out, unshuffle labels index = .ok out ∧ out.Perm labels ∧ ValidClustering n out sorted := by
+  refine ⟨_, unshuffle_ok hp, unshuffle_perm hp (unshuffle_ok hp), ?_⟩
+  have hperm := unshuffle_perm hp (unshuffle_ok hp)
+  have hk : ValidK labels (nLabels labels) sorted := ⟨hv.2.1, hv.2.2⟩
+  exact validClustering_of_validK (hperm.length_eq.trans hv.1) (hk.of_perm hperm.symm)
+
+example : unshuffle [0, 0, 1, 2] [2, 0, 3, 1] = .ok [0, 2, 0, 1] := by decide
+example : ([2, 0, 3, 1] : List Nat).Perm (List.range 4) := by decide
+
+/-! ## 3. membership matrices across aggregation levels -/
+
+/-- ★ a product of one-hot membership matrices is one-hot: `membership.dot(get_membership(labels))` has exactly
+    one stored index per row, in row order, namely the label of the row's previous cluster -/
+theorem compose_membership_partition {a b : List Nat} (hb : b ≠ []) (ha : ∀ x ∈ a, x < b.length) :
+    ∃ mb m, getMembership (b.map Int.ofNat) none = .ok mb ∧
+      dot (ofLabels a b.length) mb = .ok m ∧ indices m = a.map fun x => b.getD x 0 := by
+  refine ⟨_, _, getMembership_ofNat hb, dot_ofLabels rfl ha, indices_ofLabels _ _⟩
+
+/-- ★ invariant of the loop of `Louvain.fit` (any kernel returning one label per node): no exception; the
+    membership matrix stays the one-hot matrix of a labelling with labels exactly `0..k-1` that coarsens the
+    previous levels -/
+theorem louvain_loop_invariant {kernel : Nat → Nat → List Int × Bool} {nAgg : Int} (hk : KernelLen kernel)
+    (fuel count n : Nat) (a : List Nat) (hn : 0 < n) (ha : Contiguous a n) :
+    louvainLoop kernel nAgg fuel count n (ofLabels a n) = .ok none ∨
+    ∃ a' k count', louvainLoop kernel nAgg fuel count n (ofLabels a n) = .ok (some (ofLabels a' k, count')) ∧
+      a'.length = a.length ∧ 0 < k ∧ Contiguous a' k ∧ Coarser a a' :=
+  louvainLoop_spec hk fuel count n a hn ha
+
+/-! ## 4. `np.unique(return_inverse)` compaction (propagation, and every aggregation level) -/
+
+/-- ★ compaction yields labels exactly `0..k-1` and keeps the partition -/
+theorem compaction_contiguous (raw : List Int) :
+    Contiguous (inverse raw) (unique raw).length ∧ SamePartition raw (inverse raw) :=
+  ⟨inverse_contiguous raw, inverse_samePartition raw⟩
+
+/-- ★ `PropagationClustering` (after the repair of F9): for any labels left by the sweeps the result is a valid
+    clustering, sorted by size when `sort_clusters`, with the partition of the sweeps -/
+theorem propagation_valid {argsort : List Int → List Nat} (hs : ∀ key, IsArgsort key (argsort key))
+    (raw : List Int) (sortClusters bipartite : Bool) (nRow : Nat) :
+    ValidClustering raw.length (allLabels (propagationPost argsort raw sortClusters bipartite nRow)) sortClusters ∧
+    SamePartition raw (allLabels (propagationPost argsort raw sortClusters bipartite nRow)) :=
+  propagationPost_spec hs raw sortClusters bipartite nRow
+
+/-- F9 (found on the pinned tree, repaired by commit 82bf0bf1): without the relabelling step the output of
+    `PropagationClustering(sort_clusters=True)` on the witness (node 0 isolated, edge 1–2: sweeps leave `[0,2,2]`)
+    is `[0,1,1]`, which is not sorted by size; with the step it is `[1,0,0]`. -/
+theorem f9_witness :
+    ¬ ValidClustering 3 (allLabels (splitVars false 3 (inverse [0, 2, 2]))) true ∧
+    allLabels (propagationPost argsortStable [0, 2, 2] true false 3) = [1, 0, 0] := by
+  decide
+
+/-! ## 5. the whole of `Louvain.fit` / `Leiden.fit` around the kernels -/
+
+/-- ★ Louvain: for every kernel that returns one label per node, every sorting `argsort`, every shuffling
+    permutation and every option, the fit does not raise and — when the loop stops — `labels_` (rows then
+    columns for a bipartite graph) is a valid clustering of the `N` nodes, sorted by size iff `sort_clusters` -/
+theorem louvain_fit_valid {argsort : List Int → List Nat} (hs : ∀ key, IsArgsort key (argsort key))
+    {kernel : Nat → Nat → List Int × Bool} (hk : KernelLen kernel) (nAgg : Int) (fuel : Nat) {N : Nat}
+    (hN : 0 < N) (sortClusters shuffle bipartite : Bool) (nRow : Nat) {index : List Nat}
+    (hidx : shuffle = true → index.Perm (List.range N)) :
+    louvainFit argsort kernel nAgg fuel N index sortClusters shuffle bipartite nRow = .ok none ∨
+    ∃ f count, louvainFit argsort kernel nAgg fuel N index sortClusters shuffle bipartite nRow = .ok (some (f, count)) ∧
+      ValidClustering N (allLabels f) sortClusters :=
+  louvainFit_spec hs hk nAgg fuel hN sortClusters shuffle bipartite nRow hidx
+
+/-- ★ Leiden: same statement; the refinement kernel must keep every refined cluster inside one cluster of the
+    partition it refines (`LeidenContract.within`, the statement of C06 about `optimize_refine_core`) -/
+theorem leiden_fit_valid {argsort : List Int → List Nat} (hs : ∀ key, IsArgsort key (argsort key))
+    {kernel : Nat → List Nat → List Int × Bool} {refine : Nat → List Nat → List Int}
+    (hk : LeidenContract kernel refine) (nAgg : Int) (fuel : Nat) {N : Nat}
+    (hN : 0 < N) (sortClusters shuffle bipartite : Bool) (nRow : Nat) {index : List Nat}
+    (hidx : shuffle = true → index.Perm (List.range N)) :
+    leidenFit argsort kernel refine nAgg fuel N index sortClusters shuffle bipartite nRow = .ok none ∨
+    ∃ f count, leidenFit argsort kernel refine nAgg fuel N index sortClusters shuffle bipartite nRow
+        = .ok (some (f, count)) ∧ ValidClustering N (allLabels f) sortClusters :=
+  leidenFit_spec hs hk nAgg fuel hN sortClusters shuffle bipartite nRow hidx
+
+/-- ★ `_post_processing` alone, with the relation between the final labels and the clusters found: the output
+    induces the partition of the composed membership, read through the shuffling permutation -/
+theorem post_processing_valid {argsort : List Int → List Nat} (hs : ∀ key, IsArgsort key (argsort key))
+    {a : List Nat} {k N : Nat} (hN : a.length = N) (hc : Contiguous a k)
+    (sortClusters shuffle bipartite : Bool) (nRow : Nat) {index : List Nat}
+    (hidx : shuffle = true → index.Perm (List.range N)) :
+    ∃ f, postProcess argsort (ofLabels a k) index sortClusters shuffle bipartite nRow = .ok f ∧
+      ValidClustering N (allLabels f) sortClusters ∧
+      ∃ L, SamePartition a L ∧
+        (if shuffle then ∀ j, j < N → (allLabels f)[index.getD j 0]? = L[j]? else allLabels f = L) :=
+  postProcess_spec hs hN hc sortClusters shuffle bipartite nRow hidx
+
+/-- for a bipartite graph `labels_` is `labels_row_` (length `n_row`) and `labels_col_` holds the other labels -/
+theorem split_vars_rows (nRow : Nat) (l : List Nat) (h : nRow ≤ l.length) :
+    (splitVars true nRow l).labelsRow = some (splitVars true nRow l).labels ∧
+    (splitVars true nRow l).labels.length = nRow ∧
+    ∃ c, (splitVars true nRow l).labelsCol = some c ∧ c.length = l.length - nRow :=
+  splitVars_bipartite nRow l h
+
+-- non-vacuity of the kernel contracts, and a non-trivial run of the model (two levels, shuffled, sorted)
+def exKernel : Nat → Nat → List Int × Bool :=
+  fun _ n => ((List.range n).map fun i => (((i + 1) / 2 : Nat) : Int) * 3, decide (n ≤ 3))
+
+example : KernelLen exKernel := fun _ _ => by simp [exKernel]
+example : louvainFit argsortStable exKernel (-1) 5 5 [4, 2, 0, 3, 1] true true false 5
+    = .ok (some (⟨[0, 0, 0, 0, 1], none, none⟩, 2)) := by decide
+
+def exLeidenKernel : Nat → List Nat → List Int × Bool :=
+  fun count labels => (labels.map fun x => ((x / 2 : Nat) : Int) + 10, decide (2 ≤ count))
+def exRefine : Nat → List Nat → List Int := fun _ labels => labels.map Int.ofNat
+
+example : LeidenContract exLeidenKernel exRefine :=
+  ⟨fun _ _ => by simp [exLeidenKernel], fun _ _ => by simp [exRefine], fun _ labels i j hi hj h => by
+    simp only [exRefine, List.getElem?_map, List.getElem?_eq_getElem hi, List.getElem?_eq_getElem hj,
+      Option.map_some, Option.some.injEq] at h ⊢
+    exact Int.ofNat.inj h⟩
+example : leidenFit argsortStable exLeidenKernel exRefine (-1) 6 6 (List.range 6) true false true 4
+    = .ok (some (⟨[0, 0, 0, 0], some [0, 0, 0, 0], some [1, 1]⟩, 2)) := by decide
+
+/-! ## 6. secondary outputs -/
+
+/-- ★ square input, non-negative weights: `_secondary_outputs` does not raise; every row of `probs_` is
+    non-negative and sums to 1 — to 0 exactly when the node has no outgoing weight (`ProbsOK`, tolerance 0);
+    `aggregate_` is `k × k` with `aggregate_[x][y] = Σ` of the input weights from cluster `x` to cluster `y`
+    (`AggOK`), and its total is the total edge weight. -/
+theorem probs_row_sum {a : SpMat} {l : List Nat} (hne : l ≠ []) (hsq : l.length = a.length)
+    (hcols : ∀ row ∈ a, ∀ e ∈ row, e.1 < l.length) (hw : ∀ row ∈ a, ∀ e ∈ row, 0 ≤ e.2) (rp ra : Bool) :
+    ∃ s, secondarySquare a l.length l rp ra = .ok s ∧
+      (if rp then ∃ P, s.probs = some P ∧ ProbsOK a P (nLabels l) 0 else s.probs = none) ∧
+      (if ra then ∃ G, s.aggregate = some G ∧ AggOK a l l (nLabels l) G 0 ∧ sumAll G = totalWeight a
+       else s.aggregate = none) :=
+  secondarySquare_spec hne hsq hcols hw rp ra
+
+/-- ★ biadjacency input: `probs_row_` (= `probs_`) and `probs_col_` are soft memberships of rows and columns over
+    the common label space `k = max(max(labels_row_), max(labels_col_)) + 1`; `aggregate_` sums the weights between
+    row clusters and column clusters; its total is the total weight. -/
+theorem probs_row_sum_bipartite {a : SpMat} {nCol : Nat} {lr lc : List Nat} (hr : lr ≠ []) (hc : lc ≠ [])
+    (hlr : lr.length = a.length) (hlc : lc.length = nCol)
+    (hcols : ∀ row ∈ a, ∀ e ∈ row, e.1 < nCol) (hw : ∀ row ∈ a, ∀ e ∈ row, 0 ≤ e.2) (rp ra : Bool) :
+    ∃ s, secondaryBip a nCol lr lc rp ra = .ok s ∧
+      (if rp then ∃ Pr Pc, s.probsRow = some Pr ∧ s.probs = some Pr ∧ s.probsCol = some Pc ∧
+          ProbsOK a Pr (nLabels (lr ++ lc)) 0 ∧ ProbsOK (transposeSp a nCol) Pc (nLabels (lr ++ lc)) 0
+       else s.probs = none ∧ s.probsRow = none ∧ s.probsCol = none) ∧
+      (if ra then ∃ G, s.aggregate = some G ∧ AggOK a lr lc (nLabels (lr ++ lc)) G 0 ∧ sumAll G = totalWeight a
+       else s.aggregate = none) := by
+  rw [nLabels_append]
+  exact secondaryBip_spec hr hc hlr hlc hcols hw rp ra
+
+/-- ★ the entry formula on its own -/
+theorem aggregate_entry_eq (a : SpMat) (lr lc : List Nat) (k : Nat) (hlen : lr.length = a.length)
+    {x y : Nat} (hx : x < k) (hy : y < k) :
+    ((memberTDot lr k (dotMember a lc k) k).getD x []).getD y 0 = aggEntry a lr lc k x y :=
+  aggregate_entry a lr lc k hlen hx hy
+
+/-- ★ the weights between all pairs of clusters add up to the total weight (labels below `k`) -/
+theorem aggregate_total_eq (a : SpMat) (lr lc : List Nat) (k : Nat)
+    (hr : ∀ t ∈ triples a, lr.getD t.1 k < k) (hc : ∀ t ∈ triples a, lc.getD t.2.1 k < k) :
+    sumR (tab k fun x => sumR (tab k fun y => aggEntry a lr lc k x y)) = totalWeight a :=
+  aggregate_total a lr lc k hr hc
+
+-- non-vacuity: a weighted digraph with a sink (row 2) and a self-loop; labels [0,1,0]
+def exA : SpMat := [[(1, 2), (0, 1)], [(2, 1/2)], []]
+example : secondarySquare exA 3 [0, 1, 0] true true
+    = .ok ⟨some [[1/3, 2/3], [1, 0], [0, 0]], none, none, some [[1, 2], [1/2, 0]]⟩ := by decide +kernel
+example : (∀ row ∈ exA, ∀ e ∈ row, e.1 < 3) ∧ (∀ row ∈ exA, ∀ e ∈ row, (0 : Rat) ≤ e.2) := by decide +kernel
+
+/-! ## 7. KCenters -/
+
+/-- ★ `_init_centers`: `n_clusters` distinct centres inside the admissible mask, whatever the random choices and
+    the PageRank scores are (the only thing assumed of `np.random.choice` is that it returns an element of the
+    non-empty array it is given) -/
+theorem kcenters_init_centers {choose : Nat → List Nat → Nat} (hch : ChoiceOK choose) {mask : List Bool} {n : Nat}
+    (hn : n ≤ (mask.filter id).length) :
+    (initCenters choose mask n).length = n ∧ (initCenters choose mask n).Nodup ∧
+    ∀ c ∈ initCenters choose mask n, mask.getD c false = true :=
+  initCenters_spec hch hn
+
+/-- ★ `KCenters.fit`: if the arguments are not refused, the labels are below `n_clusters`, `centers_` are
+    `n_clusters` distinct admissible nodes (`center_position`), and `centers_row_` / `centers_col_` split them by side -/
+theorem kcenters_centers {nClusters nInit : Int} {bipartite : Bool} {nRow nCol : Nat} {pos : CenterPos}
+    {runs : List (List Nat × List Nat)} {idxMax : Nat} {k : KFitted}
+    (h : kcentersFit nClusters nInit bipartite nRow nCol pos runs idxMax = .ok k)
+    (hruns : ∀ mask, maskCenters bipartite nRow nCol pos = .ok mask → ∀ r ∈ runs,
+      (∃ choose, ChoiceOK choose ∧ r.1 = initCenters choose mask nClusters.toNat) ∧
+      r.2.length = (if bipartite then nRow + nCol else nRow) ∧ ∀ l ∈ r.2, l < nClusters.toNat) :
+    KCentersOK bipartite nRow nCol pos nClusters.toNat (allLabelsK k) k.centers ∧
+    (bipartite = true → CentersSplitOK nRow pos k.centers k.centersRow k.centersCol) :=
+  kcentersFit_spec h hruns
+
+-- non-vacuity: a choice function (first candidate), a 2x3 biadjacency with centres on both sides
+example : ChoiceOK (fun _ cand => cand.headD 0) := by
+  intro _ cand h
+  cases cand with
+  | nil => exact absurd rfl h
+  | cons x xs => simp
+example : initCenters (fun t cand => cand.getD (2 * t) 0) [true, true, true, true, true] 2 = [0, 3] := by decide
+example : kcentersFit 2 1 true 2 3 .both [([0, 3], [0, 0, 1, 1, 0])] 0
+    = .ok ⟨[0, 0], some [0, 0], some [1, 1, 0], [0, 3], some [0], some [1]⟩ := by decide
 
 end SkNet.C05
